@@ -568,7 +568,7 @@ def units_rule(chk, db):
         chk.analysis_broken("UNITS: only %d chrono functions that combine two tick counts found (floor 3)" % n)
 
 
-META_EXTRA = 'CAST / CONV (conversion arithmetic skeleton count*num/den in the common type; kernel selection); ROUND (floor/ceil/round evaluated as decision procedures, sign-robust parity); COMMON (tick counts read only from operands converted to the common duration); UNITS (type-tagged tick counts: no operator combines counts of two different duration types); PARAM.'
+META_EXTRA = 'CAST / CONV (conversion arithmetic skeleton count*num/den in the common type; kernel selection); ROUND (floor/ceil/round evaluated as decision procedures, sign-robust parity); COMMON (tick counts read only from operands converted to the common duration); UNITS (type-tagged tick counts: no operator combines counts of two different duration types); REL (duration / time_point relational operators evaluated over the ordering of the compared subjects); PARAM.'
 META = (META[0] + " " + META_EXTRA, META[1])
 
 
@@ -581,6 +581,10 @@ def run(chk, tier):
     conv_rule(chk, db)
     common_rule(chk, db)
     units_rule(chk, db)
+    from ..rules import rel as _REL
+    nrel = _REL.check(chk, db, ["_chrono/time_point.hpp", "_chrono/duration.hpp"])      # REL: the relational operators over the ordering domain
+    if nrel < 8:
+        chk.analysis_broken("REL: only %d relational operators of duration / time_point modelled (floor 8)" % nrel)
     round_rule(chk, db)
     tus, info = gen.generate(quick)
     res = wit.compile_many(tus, compiler="g++", jobs=16)
